@@ -2,7 +2,7 @@
    on a fresh object).  Statements only; every proof is `exact <lemma>`; Print Assumptions under each. *)
 From Coq Require Import ZArith List Bool String.
 Import ListNotations.
-Require Import PyBase Generated Locate LocateFacts LocateExamples Reindex ReindexFacts ReindexExamples.
+Require Import PyBase Generated Locate LocateFacts LocateExamples LocateIndex LocateIndexFacts Reindex ReindexPd ReindexFacts ReindexFacts2 ReindexExamples.
 Open Scope Z_scope.
 Open Scope list_scope.
 
@@ -318,3 +318,53 @@ Theorem C12_pandas_status_keyword_refuted :
                   /\ option_map (fun sr => nth 2 (s_data sr) (CV PNone)) (lookup "status" (c_vars st')) = Some (CS "F")).
 Proof. exact pandas_status_keyword_refuted. Qed.
 Print Assumptions C12_pandas_status_keyword_refuted.
+
+(* ---------- pandas PeriodIndex / DatetimeIndex old spans WITHOUT an oracle hypothesis: with the regular-index model of
+   get_loc / __contains__ (LocateIndex.v; tied to pandas by the correspondence check) the hypothesis old_span_ok is proved,
+   for every start, non-zero step, length, both kinds and every list of new labels ---------- *)
+Theorem C12_regular_index_old_span_ok (k : ikind) (a s : Z) (n : nat) (labels : list label) :
+  s <> 0 ->
+  old_span_ok (fun _ => reg_get_loc k a s n) (fun _ => reg_contains k a s n) (SPandas (reg_labels k a s n)) labels.
+Proof. exact (regular_index_old_span_ok k a s n labels). Qed.
+Print Assumptions C12_regular_index_old_span_ok.
+
+Theorem C12_regular_index_reindex_values (k : ikind) (a s : Z) (n : nat) (cast : nat -> dtype -> pyval -> outcome cell)
+        (st st' : cst) (new_span : span) (new_id : Z) (fv : pyval) (strict : option bool) (fills : list (string * pyval)) (fresh : Z) :
+  s <> 0 -> c_span st = SPandas (reg_labels k a s n) -> wf st ->
+  reindex_M (fun _ => reg_get_loc k a s n) (fun _ => reg_contains k a s n) cast st new_span new_id fv strict fills fresh = Ret st' ->
+  c_span st' = new_span
+  /\ Forall2 (fun x y : string * series cell =>
+                fst y = fst x /\ s_dtype (snd y) = s_dtype (snd x)
+                /\ exists c, fill_cell cast (List.length (span_labels new_span)) (s_dtype (snd x)) (fill_for fills fv (fst x)) = Ret c
+                          /\ s_data (snd y) = map (fun p => match pos p (reg_labels k a s n) with
+                                                            | Some q => nth q (s_data (snd x)) c
+                                                            | None => c
+                                                            end) (span_labels new_span))
+             (c_vars st) (c_vars st').
+Proof. exact (regular_index_reindex_values k a s n cast st st' new_span new_id fv strict fills fresh). Qed.
+Print Assumptions C12_regular_index_reindex_values.
+
+(* BaseLinker.reindex is documented as not implemented: NotImplementedError whatever the arguments (the property does not
+   quantify over linkers) *)
+Theorem C12_linker_reindex_not_implemented (st : cst) new_span new_id fv strict fills fresh :
+  linker_reindex_M st new_span new_id fv strict fills fresh = Raise NotImplementedError.
+Proof. exact (linker_reindex_not_implemented st new_span new_id fv strict fills fresh). Qed.
+Print Assumptions C12_linker_reindex_not_implemented.
+
+(* ---------- the mixin relative to a MODEL of pandas for float64 series (ReindexPd.v: Series.reindex without method / fill value =
+   old value by label else NaN; the float64 casting assignment = identity; both compared with every recorded pandas answer of that
+   kind by the correspondence check): with default arguments every float64 variable is left exactly as the core reindex made it —
+   finding #11 concerns the other dtypes only ---------- *)
+Theorem C12_pandas_float_unaffected (pd_get_loc : list label -> label -> outcome loc) (pd_contains : list label -> label -> bool)
+        (cast : nat -> dtype -> pyval -> outcome cell) (st r : cst) (names : list string) (new_span : span) (new_id fresh : Z)
+        (mf : string -> option string) :
+  wf st ->
+  old_span_ok pd_get_loc pd_contains (c_span st) (span_labels new_span) ->
+  (forall n, cast n DFloat PNone = Ret (CF FNan)) ->
+  (forall name, In name names ->
+     mf name = None /\ name <> "status"%string /\ name <> "iterations"%string
+     /\ exists sr, lookup name (c_vars st) = Some sr /\ s_dtype sr = DFloat /\ forallb is_cf (s_data sr) = true) ->
+  model_reindex_M pd_get_loc pd_contains cast st new_span new_id PNone None [] fresh = Ret r ->
+  pandas_loop float_series_reindex float_assign_cast st new_span mf [] PNone names r = Ret r.
+Proof. exact (pandas_float_unaffected pd_get_loc pd_contains cast st r names new_span new_id fresh mf). Qed.
+Print Assumptions C12_pandas_float_unaffected.
